@@ -22,6 +22,7 @@ engine_of() {
 build() { # $1 = engine
   case $1 in
     seq) go build -o bin/seq ./props/seq ;;
+    pure) go build -o bin/pure ./props/pure ;;
     *) tools/build_overlay.sh "$1" ;;
   esac
 }
